@@ -210,6 +210,7 @@ type Interp struct {
 	pureTabs    map[string][]*Term
 	pureTabsAgg map[string]*Agg
 	crcTop      bool
+	pools       map[lockKey][]Value
 	crcTerms    map[*Term]bool
 }
 
